@@ -19,6 +19,11 @@ func getLocation(offset int32, buf []byte) *time.Location {
 	mutexTimeZones.RLock()
 	if z, ok := cacheTimeZone[offset]; ok {
 		mutexTimeZones.RUnlock()
+		if z.String() != string(buf) {
+			// The same offset can be written in several ways ("+00:00", "-00:00");
+			// the cached zone is named after the first one seen.
+			return time.FixedZone(string(buf), int(offset))
+		}
 		return z
 	}
 	mutexTimeZones.RUnlock()
